@@ -27,6 +27,7 @@ import (
 	"github.com/twmb/franz-go/pkg/kfake"
 	"github.com/twmb/franz-go/pkg/kgo"
 	"github.com/twmb/franz-go/pkg/kmsg"
+	"github.com/twmb/franz-go/pkg/kversion"
 	"verif/harness/raw"
 	"verif/harness/sim"
 )
@@ -41,6 +42,9 @@ type Txn struct {
 	Commit     bool    `json:"commit"`     // what the application asks for
 	Faults     []Fault `json:"faults"`     // armed right before End (EndTxn faults) or before producing (others)
 	ProduceGap bool    `json:"produceGap"` // produce one more record between a failed End and the abort retry
+	// AsyncAbortMs > 0: the records are produced without waiting for them and, this many (virtual) ms later, the application
+	// aborts: AbortBufferedRecords + End(TryAbort) while batches may be in flight or being retried
+	AsyncAbortMs int `json:"asyncAbortMs,omitempty"`
 }
 type Step struct {
 	Op string `json:"op"` // join | stop | produce_in | sleep | fault
@@ -55,6 +59,7 @@ type Scenario struct {
 	Txns  []Txn  `json:"txns,omitempty"`
 	Steps []Step `json:"steps,omitempty"`
 	Proto string `json:"proto,omitempty"`
+	Old   bool   `json:"old,omitempty"` // brokers before KIP-890 part 2 (no epoch bump per transaction): kfake capped at 3.7
 }
 
 var keyOf = map[string]kmsg.Key{"produce": kmsg.Produce, "endtxn": kmsg.EndTxn, "initpid": kmsg.InitProducerID, "addparts": kmsg.AddPartitionsToTxn,
@@ -74,6 +79,7 @@ func gen(seed int64, tier, mode string) Scenario {
 		return f
 	}
 	if mode == "txn" {
+		sc.Old = r.Intn(2) == 0
 		n := 2 + r.Intn(3)
 		for i := 0; i < n; i++ {
 			t := Txn{N: r.Intn(4), Commit: r.Intn(4) != 0}
@@ -89,6 +95,19 @@ func gen(seed int64, tier, mode string) Scenario {
 				t.Faults = append(t.Faults, f)
 			}
 			t.ProduceGap = r.Intn(3) == 0
+			if r.Intn(4) == 0 && t.N > 0 {
+				// abort in the middle of producing; the acknowledgement of the first attempt is lost and the retry is answered
+				// with a retriable error, so the batch is in its retry loop when the abort comes
+				t.AsyncAbortMs = []int{5, 15, 30, 60, 150}[r.Intn(5)]
+				t.Commit = false
+				t.Faults = []Fault{{Key: "produce", Kind: "dropthenretriable", N: 1 + r.Intn(3)}}
+			}
+			if len(sc.Txns) > 0 && sc.Txns[len(sc.Txns)-1].AsyncAbortMs > 0 {
+				t.N = sc.Txns[len(sc.Txns)-1].N // same batch shape right after the aborted one
+				t.Commit = true
+				t.AsyncAbortMs = 0
+				t.Faults = nil
+			}
 			sc.Txns = append(sc.Txns, t)
 		}
 		sc.Txns = append(sc.Txns, Txn{N: 2, Commit: true}) // a clean committed transaction at the end: nothing earlier may ride along
@@ -152,6 +171,36 @@ func arm(c *kfake.Cluster, chaos *sim.Chaos, rec *sim.Recorder, f Fault) {
 				rec.Ev("dbg_kill", "key", f.Key, "left", n)
 			}
 			return nil, errors.New("injected connection kill"), true
+		})
+	case "dropthenretriable":
+		// produce: the first request is handled and its acknowledgement lost; the next n are answered NOT_LEADER_FOR_PARTITION
+		chaos.DropNext(key, 1)
+		first := true
+		c.ControlKey(key, func(kreq kmsg.Request) (kmsg.Response, error, bool) {
+			if first {
+				first = false
+				c.KeepControl()
+				return nil, nil, false
+			}
+			n--
+			if n > 0 {
+				c.KeepControl()
+			} else {
+				c.DropControl()
+			}
+			req := kreq.(*kmsg.ProduceRequest)
+			resp := req.ResponseKind().(*kmsg.ProduceResponse)
+			for _, rt := range req.Topics {
+				st := kmsg.NewProduceResponseTopic()
+				st.Topic, st.TopicID = rt.Topic, rt.TopicID
+				for _, rp := range rt.Partitions {
+					sp := kmsg.NewProduceResponseTopicPartition()
+					sp.Partition, sp.ErrorCode = rp.Partition, kerr.NotLeaderForPartition.Code
+					st.Partitions = append(st.Partitions, sp)
+				}
+				resp.Topics = append(resp.Topics, st)
+			}
+			return resp, nil, true
 		})
 	case "retriable", "concurrent":
 		code := kerr.CoordinatorLoadInProgress.Code
@@ -219,7 +268,11 @@ func runTxn(t *testing.T, rec *sim.Recorder, sc Scenario) {
 		rec.Ev("reset", "mode", sc.Mode, "scenario", string(js))
 		var vnet kfake.VirtualNetwork
 		chaos := sim.NewChaos()
-		c, err := kfake.NewCluster(kfake.NumBrokers(2), kfake.SeedTopics(2, "out"), kfake.ListenFn(chaos.Listen(vnet.Listen)), kfake.Ports(9092, 9093))
+		copts := []kfake.Opt{kfake.NumBrokers(2), kfake.SeedTopics(2, "out"), kfake.ListenFn(chaos.Listen(vnet.Listen)), kfake.Ports(9092, 9093)}
+		if sc.Old {
+			copts = append(copts, kfake.MaxVersions(kversion.V3_7_0()))
+		}
+		c, err := kfake.NewCluster(copts...)
 		if err != nil {
 			t.Fatal(err)
 		}
@@ -255,10 +308,29 @@ func runTxn(t *testing.T, rec *sim.Recorder, sc Scenario) {
 					arm(c, chaos, rec, f)
 				}
 			}
-			produce(k, tx.N)
-			ctx, cancel := ctxT()
-			ferr := cl.Flush(ctx)
-			cancel()
+			var ferr error
+			var ctx context.Context
+			var cancel context.CancelFunc
+			if tx.AsyncAbortMs > 0 {
+				for i := 0; i < tx.N; i++ {
+					nextID++
+					id := nextID
+					cl.Produce(context.Background(), &kgo.Record{Value: []byte(fmt.Sprintf("r%d", id)), Partition: 0}, func(_ *kgo.Record, err error) {
+						rec.Ev("produced", "id", id, "txn", k, "ok", err == nil, "err", fmt.Sprint(err))
+					})
+				}
+				time.Sleep(time.Duration(tx.AsyncAbortMs) * time.Millisecond)
+				ctx, cancel = ctxT()
+				ferr = cl.AbortBufferedRecords(ctx)
+				cancel()
+				rec.Ev("abort_buffered", "txn", k, "err", fmt.Sprint(ferr))
+				ferr = errors.New("application aborts")
+			} else {
+				produce(k, tx.N)
+				ctx, cancel = ctxT()
+				ferr = cl.Flush(ctx)
+				cancel()
+			}
 			for _, f := range tx.Faults {
 				if f.Key == "endtxn" {
 					arm(c, chaos, rec, f)
